@@ -40,14 +40,14 @@ structure RState where
   deriving Repr, DecidableEq, Inhabited
 
 def lookupLine (n : Nat) : Option Str :=
-  (Gen.statusLines.find? (·.1 == n)).map (·.2.toList)
+  (Gen.wsgiStatusLines.find? (·.1 == n)).map (·.2.toList)
 
 /-- `str(status or '%d Unknown' % code)` for an `int` status -/
 def lineOfCode (n : Nat) : Str := (lookupLine n).getD (natStr n ++ " Unknown".toList)
 
 /-- `BaseResponse.__init__()` as called by `_handle`: `Response()` with the defaults -/
 def RState.init : RState :=
-  { code := Gen.defaultStatus, line := lineOfCode Gen.defaultStatus, headers := [], cookies := [] }
+  { code := Gen.wsgiDefaultStatus, line := lineOfCode Gen.wsgiDefaultStatus, headers := [], cookies := [] }
 
 /-- what is assigned to `response.status` -/
 inductive StatusArg
@@ -135,7 +135,7 @@ def apply (r : RState) (st : RState) : RState :=
 
 /-- `bad_headers.get(code)` -/
 def badHeadersFor (code : Nat) : List Str :=
-  ((Gen.badHeaders.find? (·.1 == code)).map (·.2.map String.toList)).getD []
+  ((Gen.wsgiBadHeaders.find? (·.1 == code)).map (·.2.map String.toList)).getD []
 
 /-- the entries of `_headers` that survive the per-status blacklist (`h[0].title() not in bad_headers`) -/
 def keptHeaders (st : RState) : Hdrs :=
@@ -159,7 +159,7 @@ def emitPair (p : Str × HVal) : Option (Str × Str) :=
 def headerlist (st : RState) : Option (List (Str × Str)) :=
   if (flatHeaders st).any (fun p => p.2 == .bad) then none else
   some ((flatHeaders st).filterMap emitPair
-    ++ (if needCtype st then [("Content-Type".toList, Gen.defaultContentType.toList)] else [])
+    ++ (if needCtype st then [("Content-Type".toList, Gen.wsgiDefaultContentType.toList)] else [])
     ++ st.cookies.map fun c => ("Set-Cookie".toList, recodeLatin1 (c.1 ++ '=' :: c.2)))
 
 /-! ### the handler program space -/
@@ -326,7 +326,7 @@ def enumFrom {α} : Nat → List α → List (Nat × α)
 
 /-- the list `_hooks[name]` as `add_hook` builds it from the registration sequence -/
 def hookList (name : String) (hooks : List Hook) : List (Nat × Hook) :=
-  if ((Gen.hookReversed.find? (·.1 == name)).map (·.2)).getD false
+  if ((Gen.wsgiHookReversed.find? (·.1 == name)).map (·.2)).getD false
   then (enumFrom 0 hooks).reverse else enumFrom 0 hooks
 
 /-- `to_route` + `Ombott.handler` -/
@@ -358,7 +358,7 @@ def Slots.initRequest (s : Slots) (r : Req) : Slots :=
 (through the `status` setter with the default), `_cookies = None`, `_headers = {}`, `body = ''` —
 every attribute of the reused response object -/
 def Slots.initResponse (s : Slots) : Slots :=
-  { s with resp := { s.resp with code := Gen.defaultStatus, line := lineOfCode Gen.defaultStatus,
+  { s with resp := { s.resp with code := Gen.wsgiDefaultStatus, line := lineOfCode Gen.wsgiDefaultStatus,
                                  headers := [], cookies := [] } }
 
 /-- `_handle` after the re-initialisation of the two per-thread objects -/
@@ -406,7 +406,7 @@ inductive CastRes
 
 /-- `error_render.render(res, request.url, debug=False)` -/
 def renderPage (line urlRepr body : Str) : Str :=
-  Gen.errorPage.flatMap fun seg =>
+  Gen.wsgiErrorPage.flatMap fun seg =>
     if seg.1 then
       (if seg.2 == "e.status" then line
        else if seg.2 == "url" then urlRepr
@@ -514,7 +514,7 @@ def step (app : App) (fw : Bool) : Cfg → Cfg
   | .done s r => .done s r
   | .run cnt s out =>
     let cnt := cnt + 1
-    if cnt > Gen.castMaxLoops then
+    if cnt > Gen.wsgiCastMaxLoops then
       let e : RState := { code := 500, line := lineOfCode 500, headers := [], cookies := [] }
       let s' := withResp s (apply e s.resp)
       castOut app fw cnt s' (defaultPage s' e (.text "too many iterations".toList))
@@ -530,7 +530,7 @@ def runLoop (app : App) (fw : Bool) : Nat → Cfg → Cfg
 
 /-- `Ombott._cast(out)`: the loop run for as many iterations as its own guard allows -/
 def cast (app : App) (fw : Bool) (s : Slots) (out : Out) : Slots × CastRes :=
-  match runLoop app fw (Gen.castMaxLoops + 1) (.run 0 s out) with
+  match runLoop app fw (Gen.wsgiCastMaxLoops + 1) (.run 0 s out) with
   | .done s' r => (s', r)
   | .run _ s' _ => (s', .diverged)
 
@@ -549,7 +549,7 @@ def closeEvents : Option Nat → List Event
   | some k => [.close k]
   | none => []
 
-def isBodyless (code : Nat) : Bool := Gen.bodylessStatuses.contains code
+def isBodyless (code : Nat) : Bool := Gen.wsgiBodylessStatuses.contains code
 
 /-- `start_response('500 INTERNAL SERVER ERROR', [('Content-Type', …)], sys.exc_info())` -/
 def critStart : Event :=
